@@ -61,6 +61,17 @@ CHECKS = {
             'Trusts the reference model; dispatching enabled throughout; priorities in [-3, 3] plus class '
             'defaults; any matching subclass accepted for remove_processor when no exact-type processor exists.',
             'DESIGN.md section 3 / C07'),
+    'C03': ('exploration',
+            'property-based testing (Hypothesis): generated event_handler class hierarchies checked against an '
+            'independent fold, and add/remove/dispatch histories with re-entrant scripted callbacks checked by '
+            'a per-dispatch-frame trace invariant',
+            'Randomised search with shrinking over handler hierarchies and dispatcher histories including '
+            'calls made from inside callbacks (depth <= 3); per frame exactly-once delivery on the mapped '
+            'method with identical args/kwargs, nothing else called, is_handler vs model after every step, '
+            'base-class mappings re-read after every decoration. Small-scope confidence, no proof.',
+            'Trusts the frame bookkeeping of the harness; handlers added/removed during the iterating frame '
+            'accepted either way; single lineage of __events__ per class.',
+            'DESIGN.md section 3 / C03'),
 }
 
 ALL = ['C%02d' % i for i in range(1, 21)]
